@@ -110,6 +110,83 @@ impl<'a> DeclVisitor for EnvVisitor<'a> {
     }
 }
 
+/// what the traversal leaves in the find visitor: the first element of the sequence that is a declaration of the tree with that name
+pub proof fn lemma_find_run<'a, 'n>(t: &'a LuaDeclarationTree, name: Seq<char>, res: Option<&'a LuaDecl>, s: Seq<ScopeOrDeclId>)
+    ensures ({ let r = run::<FindVisitor<'a, 'n>>((t, name, res), s);
+        &&& (r.1 <==> exists|j: int| 0 <= j < s.len() && find_hit(t, name, s[j]))
+        &&& (!r.1 ==> r.0.2 == res)
+        &&& (r.1 ==> exists|j: int| 0 <= j < s.len() && find_hit(t, name, s[j]) && r.0.2 == Some(&t.decls@[s[j]->Decl_0])
+                && forall|j2: int| 0 <= j2 < j ==> !find_hit(t, name, s[j2])) })
+    decreases s.len()
+{
+    let r = run::<FindVisitor<'a, 'n>>((t, name, res), s);
+    if s.len() > 0 {
+        if find_hit(t, name, s[0]) {
+            assert(0 <= 0 < s.len() && find_hit(t, name, s[0]) && r.0.2 == Some(&t.decls@[s[0]->Decl_0]) && forall|j2: int| 0 <= j2 < 0 ==> !find_hit(t, name, s[j2]));
+        } else {
+            let s1 = s.drop_first();
+            lemma_find_run(t, name, res, s1);
+            let r1 = run::<FindVisitor<'a, 'n>>((t, name, res), s1);
+            assert(r == r1);
+            if r1.1 {
+                let j = choose|j: int| 0 <= j < s1.len() && find_hit(t, name, s1[j]) && r1.0.2 == Some(&t.decls@[s1[j]->Decl_0])
+                    && forall|j2: int| 0 <= j2 < j ==> !find_hit(t, name, s1[j2]);
+                assert(s[j + 1] == s1[j]);
+                assert forall|j2: int| 0 <= j2 < j + 1 implies !find_hit(t, name, s[j2]) by { if j2 > 0 { assert(s[j2] == s1[j2 - 1]); } }
+                assert(0 <= j + 1 < s.len() && find_hit(t, name, s[j + 1]) && r.0.2 == Some(&t.decls@[s[j + 1]->Decl_0]));
+            }
+            if exists|j: int| 0 <= j < s.len() && find_hit(t, name, s[j]) {
+                let j = choose|j: int| 0 <= j < s.len() && find_hit(t, name, s[j]);
+                assert(s1[j - 1] == s[j]);
+            }
+        }
+    }
+}
+/// the ids the completion visitor collects from a sequence
+pub open spec fn env_list(t: &LuaDeclarationTree, s: Seq<ScopeOrDeclId>) -> Seq<LuaDeclId>
+    decreases s.len()
+{
+    if s.len() == 0 { Seq::empty() }
+    else { (if env_hit(t, s[0]) { seq![did(&t.decls@[s[0]->Decl_0])] } else { Seq::empty() }) + env_list(t, s.drop_first()) }
+}
+pub proof fn lemma_env_run<'a>(t: &'a LuaDeclarationTree, res: Seq<LuaDeclId>, s: Seq<ScopeOrDeclId>)
+    ensures run::<EnvVisitor<'a>>((t, res), s) == ((t, res + env_list(t, s)), false)
+    decreases s.len()
+{
+    if s.len() == 0 {
+        assert(res + env_list(t, s) =~= res);
+    } else {
+        let res1 = if env_hit(t, s[0]) { res.push(did(&t.decls@[s[0]->Decl_0])) } else { res };
+        lemma_env_run(t, res1, s.drop_first());
+        assert(res1 + env_list(t, s.drop_first()) =~= res + env_list(t, s));
+    }
+}
+pub proof fn lemma_env_list_char(t: &LuaDeclarationTree, s: Seq<ScopeOrDeclId>, id: LuaDeclId)
+    ensures env_list(t, s).contains(id) <==> exists|j: int| 0 <= j < s.len() && env_hit(t, s[j]) && did(&t.decls@[s[j]->Decl_0]) == id
+    decreases s.len()
+{
+    if s.len() > 0 {
+        let s1 = s.drop_first();
+        let h = if env_hit(t, s[0]) { seq![did(&t.decls@[s[0]->Decl_0])] } else { Seq::<LuaDeclId>::empty() };
+        lemma_env_list_char(t, s1, id);
+        lemma_concat_contains(h, env_list(t, s1), id);
+        if env_hit(t, s[0]) { assert(h[0] == did(&t.decls@[s[0]->Decl_0])); }
+        if env_list(t, s1).contains(id) {
+            let j = choose|j: int| 0 <= j < s1.len() && env_hit(t, s1[j]) && did(&t.decls@[s1[j]->Decl_0]) == id;
+            assert(s[j + 1] == s1[j]);
+        }
+        if exists|j: int| 0 <= j < s.len() && env_hit(t, s[j]) && did(&t.decls@[s[j]->Decl_0]) == id {
+            let j = choose|j: int| 0 <= j < s.len() && env_hit(t, s[j]) && did(&t.decls@[s[j]->Decl_0]) == id;
+            if j > 0 { assert(s1[j - 1] == s[j]); }
+        }
+    }
+}
+/// the declaration table agrees with the scope tree (DeclAnalyzer::add_decl: `decls.insert(decl.get_id(), decl)` then `add_decl_to_scope(id)`)
+pub open spec fn decls_wf(t: &LuaDeclarationTree) -> bool {
+    forall|s: int, k: int, d: LuaDeclId| 0 <= s < t.scopes@.len() && #[trigger] is_decl_child(t.scopes@, s, k, d)
+        ==> t.decls@.contains_key(d) && did(&t.decls@[d]) == d
+}
+
 impl LuaDeclarationTree {
     //@@ LuaDeclarationTree::find_local_decl
     //@@ LuaDeclarationTree::get_env_decls
